@@ -16,6 +16,7 @@ type kind struct {
 	Hostile bool        // object with programmable / throwing / recursive conversion, odd structure, or host value
 	Go      interface{} // native Go value passed instead of an otto.Value on the Go-side calls (nil = pass the Value)
 	Group   int         // receiver group (one runtime per function × group)
+	Prim    bool        // the value is a primitive (computed from typeof at start-up)
 }
 
 // throwerExpr is only generated while A9 is repaired: an uncaught value whose ToString throws.
@@ -65,6 +66,8 @@ func buildKinds() []kind {
 		{Name: "json-string", Expr: `"{\"a\":[1,{\"b\":null}],\"__proto__\":{\"x\":1}}"`, Home: "string"},
 		{Name: "date-string", Expr: `"2000-01-01T00:00:00.000Z"`, Home: "string"},
 		{Name: "percent-string", Expr: `"%E0%A4%A%u12%uD800%"`, Home: "string"},
+		{Name: "locale-en-US", Expr: `"en-US"`, Home: "string", Go: "en-US"},
+		{Name: "locale-de", Expr: `"de"`, Home: "string", Go: "de"},
 
 		// plain objects and arrays
 		{Name: "object", Expr: `({})`, Home: "object"},
@@ -81,7 +84,7 @@ func buildKinds() []kind {
 		{Name: "array-frozen", Expr: `Object.freeze([1,2,3])`, Home: "array", Hostile: true},
 		{Name: "array-ro-length", Expr: `(function(){var a=[1,2,3];Object.defineProperty(a,"length",{writable:false});return a})()`, Home: "array", Hostile: true},
 		{Name: "arraylike", Expr: `({length:3,0:"a",1:"b",2:"c"})`, Home: "object"},
-		{Name: "arraylike-neg", Expr: `({length:-1,0:1})`, Hostile: true},
+		{Name: "arraylike-neg", Expr: `({length:-4294967294,0:1,1:2})`, Hostile: true}, // ToUint32 = 2 (length:-1 would be 2^32-1: out of the domain, DESIGN appendix B)
 		{Name: "arraylike-str", Expr: `({length:"2",0:1,1:2})`, Hostile: true},
 		{Name: "arraylike-frac", Expr: `({length:2.7,0:1,1:2,2:3})`, Hostile: true},
 		{Name: "arraylike-nan", Expr: `({length:NaN,0:1})`, Hostile: true},
@@ -181,7 +184,7 @@ func buildKinds() []kind {
 		{Name: "go-map", Expr: `__gomap`, Hostile: true, Group: 98},
 		{Name: "go-map-int", Expr: `__gomapint`, Hostile: true, Group: 98},
 		{Name: "go-slice", Expr: `__goslice`, Home: "array", Hostile: true, Group: 98},
-		{Name: "go-slice-ptr", Expr: `__gosliceptr`, Hostile: true, Group: 98},
+		{Name: "go-slice-any", Expr: `__gosliceany`, Home: "array", Hostile: true, Group: 98},
 		{Name: "go-array", Expr: `__goarray`, Home: "array", Hostile: true, Group: 98},
 		{Name: "go-struct", Expr: `__gostruct`, Hostile: true, Group: 98},
 		{Name: "go-struct-ptr", Expr: `__gostructptr`, Hostile: true, Group: 98},
@@ -202,15 +205,38 @@ func buildKinds() []kind {
 			g, n = g+1, 0
 		}
 	}
+	markPrimitives(ks)
 	return ks
 }
 
-// thrower is appended to the kinds while A9 no longer reproduces (see known findings).
-var throwerKind = kind{Name: "conv-throws-unprintable", Expr: throwerExpr, Hostile: true, Group: 97}
+// markPrimitives sets Prim from `typeof` on a scratch runtime.
+func markPrimitives(ks []kind) {
+	vm := otto.New()
+	prepareVM(vm)
+	for i := range ks {
+		if ks[i].Name == "null" {
+			ks[i].Prim = true
+			continue
+		}
+		v, err := vm.Run("typeof (" + ks[i].Expr + ")")
+		if err != nil {
+			continue
+		}
+		s, _ := v.ToString()
+		ks[i].Prim = s != "object" && s != "function"
+	}
+}
+
+// throwers are appended to the kinds while A9 no longer reproduces (see known findings): they throw
+// values that cannot be converted to a string, which is what otto does with an uncaught exception.
+var throwerKinds = []kind{
+	{Name: "conv-throws-unprintable", Expr: throwerExpr, Hostile: true, Group: 97},
+	{Name: "conv-throws-unconvertible", Expr: `({valueOf:function(){throw Object.create(null)},toString:function(){throw {toString:function(){return {}},valueOf:function(){return {}}}}})`, Hostile: true, Group: 97},
+}
 
 func kindList() []kind {
 	if !known("C02-THROW-UNPRINTABLE") {
-		return append(append([]kind{}, kinds...), throwerKind)
+		return append(append([]kind{}, kinds...), throwerKinds...)
 	}
 	return kinds
 }
@@ -241,8 +267,7 @@ func prepareVM(vm *otto.Otto) (out []escaped) {
 	set("__gomap", map[string]interface{}{"a": 1, "b": "x", "c": []int{1, 2}})
 	set("__gomapint", map[int]string{1: "one", 2: "two"})
 	set("__goslice", []int{1, 2, 3})
-	sl := []interface{}{1, "b", nil}
-	set("__gosliceptr", &sl)
+	set("__gosliceany", []interface{}{1, "b", nil, []int{2}})
 	set("__goarray", [3]string{"x", "y", "z"})
 	set("__gostruct", hostStruct{A: 1, B: "b", C: []int{1}})
 	set("__gostructptr", &hostStruct{A: 2, B: "p", M: map[string]interface{}{}})
